@@ -5,9 +5,14 @@ Tie: one operation per case, run on the extracted model and on the library (exac
 vectors); the driver also checks every library result against its own schoolbook GF(p)[x]."""
 import vlib
 
-PROOF_MODULES = []      # C23 files are not in coq/_CoqProject yet: compiled directly (see ORDER)
-ORDER = ["C23/GFPolyDefs.v", "C23/GFPolyLemmas.v", "C23/GFModel.v", "C23/GFSpec.v", "C23/GFProofs.v"]
-OBLIGATIONS = []
+PROOF_MODULES = []      # C23 files are not in coq/_CoqProject yet: compiled directly, in the order ORDER
+ORDER = ["C23/GFPolyDefs.v", "C23/GFPolyLemmas.v", "C23/GFModel.v", "C23/GFSpec.v", "C23/GFArith.v",
+         "C23/GFProofsRing.v", "C23/GFProofsDiv.v", "C23/GFProofsGcd.v", "C23/GFProofs.v"]
+OBLIGATIONS = ["C23/P_%s.v" % n for n in (
+    "from_vec_spec", "neg_spec", "add_spec", "sub_spec", "add_int_spec", "mul_int_spec", "mul_spec",
+    "div_spec", "quo_spec", "rem_spec", "div_unique", "quo_exact", "shift_spec", "pow_spec", "pow_mod_spec",
+    "monic_spec", "gcd_spec", "lcm_spec_partial", "diff_spec", "eval_spec", "compose_mod_spec", "zinvert_spec",
+    "nonvacuous")]
 
 SMALL = [2, 3, 5, 7, 11, 13]
 MEDIUM = [17, 31, 101, 257, 65537]
@@ -199,7 +204,8 @@ def gen_factor_case(rng, tier):
 
 
 CORPUS = [
-    # witnesses of the known findings (kept so that a repair is noticed)
+    # inputs on which the library was wrong before bc03f74 / da7c58d, and the witnesses of the known
+    # finding about moduli above 64 bits (kept so that a repair is noticed)
     "addi 5 - 3",
     "subi 5 0 3",
     "compose 5 1,0,0,1 1,0,1 -",
@@ -333,11 +339,13 @@ def run(ctx):
         "distinct = distinct case lines")
     ctx.assumptions += [
         "the modulus is a prime p >= 2 (the theorems assume Znumtheory.prime p); mixing two moduli throws and is not modelled",
-        "mp_fdiv_r = Z.modulo, integer_class %= is Z.rem, mpz_invert(a, p) = the inverse in [0,p) (modelled by an extended Euclid, proved correct for prime p)",
+        "mp_fdiv_r = Z.modulo, mpz_invert(a, p) = the inverse in [0,p) (modelled by an extended Euclid, proved correct for prime p: P_zinvert_spec), mp_get_ui = low 64 bits",
         "exponents of gf_pow / gf_pow_mod fit unsigned long (< 2^64), shift counts and p used as `unsigned` in gf_sqf_list fit 32 bits",
         "the equal-degree factorisations draw their random polynomials from mp_randstate objects seeded by std::rand(); the driver fixes srand(seed) and "
         "hands the resulting streams to the model, so factorisation results are compared exactly; termination for every stream is not proved (Las Vegas)",
-        "irreducibility of returned factors is checked per explored input by the driver's oracle (brute force / Rabin test), not proved",
+        "not proved (checked per explored input by the driver's oracle and tied by correspondence): gf_sqf_list / gf_sqf_part multiply back to the monic input with "
+        "square-free pairwise coprime parts; Frobenius base/map = x^(ip), f^p; ddf parts have factors of one degree; factor products = input; irreducibility of returned factors "
+        "(brute force for small p^deg, Rabin's test otherwise); minimality of gf_lcm",
     ]
 
 
